@@ -9,45 +9,126 @@ THEOREMS = [
     "C05_transparent",
     "C05_transparent_from",
     "C05_submit_hit_settles",
+    "C05_current_partial",
+    "C05_cancel_drops_cache",
+    "C05_current_witness_lost",
+    "C05_current_witness_late",
+    "C05_current_witness_interrupted",
+    "C05_current_witness_fatal",
+    "C05_current_not_transparent",
     "C05_pinned_witness_failed",
     "C05_pinned_witness_refused",
     "C05_pinned_witness_inflight",
     "C05_pinned_not_transparent",
+    "C05_key_sound",
+    "C05_key_sound_current_partial",
+    "C05_tree_transparent",
+    "C05_tree_transparent_from",
+    "C05_key_current_witness",
+    "C05_tree_current_not_transparent",
+    "C05_key_shallow_witness",
 ]
 RULE = (
-    "twin histories: (node) every history up to length L over {set v in 0..3, run, submit, complete, clearFailed} "
-    "on a real function node and its use_cache=False twin under a controllable executor — exhaustive for small L, "
-    "random beyond; (composite) random histories over {set exposed input, set internal input, rewire, add, remove, "
-    "replace child, pickle round trip, run} on a 3-node workflow / macro and its cache-free twin. Non-trivial = "
-    "at least one cache hit or one failed/refused/in-flight run; distinct by canonical op list"
+    "twin histories: (node) every history up to length L over {set v, run, submit, complete, clearFailed, cancel, "
+    "drop, resetRunning}, v ranging over inputs that return / raise Exception / KeyboardInterrupt / another "
+    "BaseException / are refused by process_run_result, on a real function node and its use_cache=False twin under "
+    "a controllable executor — exhaustive for small L over a reduced alphabet, random beyond; (tree) nested "
+    "composites workflow -> macro -> macro -> macro -> node with histories over {set a free input, rewire, add, "
+    "remove, replace a child — each at every depth —, pickle round trip, run} on the graph and its cache-free twin, "
+    "key and hit/miss in lock-step with the Lean key model; (wf) the flat 3-node workflow / macro histories of the "
+    "first round. Non-trivial = at least one cache hit or one failed/refused/in-flight/cancelled/lost run; distinct "
+    "by canonical op list"
 )
 TRUSTED = [
-    "model Cache.step transcribes Node._before_run's cache logic and the run cycle outcomes of one node",
+    "model Cache.step transcribes Node._before_run's cache logic and the outcomes of Runnable._run / _finish_run / "
+    "_run_exception for ONE node (local run, executor job completing, cancelled, lost, late; Exception / "
+    "KeyboardInterrupt / BaseException / process_run_result failure)",
     "a submit answered from the cache returns outputs instead of a future (by design): the oracle settles the "
     "uncached twin's job before comparing, exactly as theorem C05_submit_hit_settles does",
-    "composite-level histories are checked by the twin oracle only (no Lean model of composite caches)",
+    "model CacheTree.key regroups Composite._internal_cache_key per child (connections + free input values = the "
+    "source of every input channel); value links macro input -> child input and the child a macro exposes are "
+    "recorded in the model key although the code's key leaves them to the macro class; signal connections and "
+    "starting nodes are not modelled: a composite run is dataflow evaluation (what C01 proves of the scheduler), so "
+    "the generator only rewires compatibly with a macro's fixed execution order",
+    "the harness reads the initial structure of a built graph off the live objects (labels, classes, connections, "
+    "links) and renders the live key tuple in the model's syntax",
 ]
 ASSUMPTIONS = ["node functions are deterministic and do not mutate their arguments (the property's proviso)"]
 
-BAD = [1]  # the function raises on these inputs
-OPS = ["set0", "set1", "set2", "set3", "run", "submit", "complete", "clearfailed"]
+BEH = {1: "exc", 4: "kbd", 5: "fatal", 6: "procbad"}  # what the node function does on these inputs (else: returns)
+OPS = ["set0", "set1", "set2", "set3", "set4", "set5", "set6", "run", "submit", "complete", "clearfailed", "cancel",
+       "drop", "resetrunning"]
+
+
+# ----------------------------------------------------------------------------- generators
+
+
+def _tree_shapes():
+    """root workflows: [label, kind, {channel: source}] in creation order; source = child label or atom code"""
+    return [
+        [["n0", "F7", {}], ["m0", "MA", {"a": "n0"}], ["n1", "F8", {"a": "m0", "b": "n0"}]],
+        [["n0", "F7", {}], ["m0", "MB", {"a": "n0"}], ["n1", "F8", {"a": "m0"}]],
+        [["m0", "MC", {"a": 1, "b": 2}], ["n1", "F8", {"a": "m0"}]],
+        [["n0", "F7", {"a": 3}], ["m0", "MC", {"a": "n0"}], ["m1", "MA", {"a": "m0", "b": "n0"}], ["n1", "F9", {"a": "m1", "b": "m0"}]],
+        [["m0", "MD", {"a": 1}], ["n1", "F8", {"a": "m0"}]],
+        [["m0", "MB", {}], ["m1", "MD", {"a": "m0"}]],
+    ]
+
+
+def _gen_tree_ops(rng, n):
+    ops = [["run"]]
+    for _ in range(n):
+        r = rng.random()
+        k = rng.randrange(1 << 20)
+        if r < 0.30:
+            e = ["setin", k, rng.randrange(1, 6)]
+        elif r < 0.45:
+            e = ["rewire", k]
+        elif r < 0.60:
+            e = ["replace", k, rng.randrange(10, 20)]
+        elif r < 0.70:
+            e = ["add", k, rng.randrange(20, 30)]
+        elif r < 0.80:
+            e = ["remove", k]
+        elif r < 0.85:
+            e = ["pickle"]
+        else:
+            e = None
+        if e is not None:
+            ops.append(e)
+            if rng.random() < 0.25:  # undo a value edit: back to a structure that was cached two runs ago
+                ops.append(["run"])
+                if e[0] == "setin":
+                    ops.append(["setin", k, 0])
+        if rng.random() < 0.85:
+            ops.append(["run"])
+    ops.append(["run"])
+    return ops
 
 
 def gen_cases(rng, tier):
     import itertools
 
-    # exhaustive small histories over a reduced alphabet, then random long ones
+    # node level: exhaustive small histories over reduced alphabets, then random long ones
     small = ["set1", "set2", "run", "submit", "complete", "clearfailed"]
     L = 4 if tier == "quick" else 6
     allh = list(itertools.product(small, repeat=L))
     if tier == "quick":
-        allh = rng.sample(allh, 500)
+        allh = rng.sample(allh, 300)
     for h in allh:
         yield {"kind": "node", "ops": list(h)}
-    for _ in range(150 if tier == "quick" else 3000):
+    small2 = ["set2", "set4", "run", "submit", "complete", "cancel", "drop", "resetrunning", "clearfailed"]
+    L2 = 4 if tier == "quick" else 5
+    allh = [h for h in itertools.product(small2, repeat=L2) if "submit" in h or "set4" in h]
+    if tier == "quick":
+        allh = rng.sample(allh, 300)
+    for h in allh:
+        yield {"kind": "node", "ops": ["set2"] + list(h)}
+    for _ in range(200 if tier == "quick" else 4000):
         n = rng.randint(5, 25)
-        yield {"kind": "node", "ops": [rng.choice(OPS + ["run", "run", "set2"]) for _ in range(n)]}
-    for _ in range(120 if tier == "quick" else 2000):
+        yield {"kind": "node", "ops": [rng.choice(OPS + ["run", "run", "set2", "submit", "complete"]) for _ in range(n)]}
+    # flat workflow / macro histories (first round)
+    for _ in range(80 if tier == "quick" else 1500):
         n = rng.randint(3, 12)
         ops = []
         for _ in range(n):
@@ -69,6 +150,17 @@ def gen_cases(rng, tier):
             else:
                 ops.append(["pickle"])
         yield {"kind": "wf", "ops": ops, "macro": rng.random() < 0.3}
+    # nested composites: every kind of edit at every depth
+    shapes = _tree_shapes()
+    for i, sh in enumerate(shapes):
+        # one edit of each kind, aimed (by the selector) at every composite in turn
+        for kind in ("setin", "rewire", "replace", "add", "remove"):
+            for sel in range(6 if tier == "quick" else 16):
+                e = {"setin": ["setin", sel, 4], "rewire": ["rewire", sel], "replace": ["replace", sel, 15],
+                     "add": ["add", sel, 25], "remove": ["remove", sel]}[kind]
+                yield {"kind": "tree", "shape": sh, "ops": [["run"], ["run"], e, ["run"], ["run"]], "bydepth": True}
+    for _ in range(150 if tier == "quick" else 3000):
+        yield {"kind": "tree", "shape": rng.choice(shapes), "ops": _gen_tree_ops(rng, rng.randint(2, 8))}
 
 
 def corpus():
@@ -76,18 +168,57 @@ def corpus():
     yield {"kind": "node", "ops": ["run", "run"]}
     yield {"kind": "node", "ops": ["set2", "submit", "run"]}
     yield {"kind": "node", "ops": ["set2", "run", "run", "submit", "set3", "run"]}
+    # a job cancelled before it starts, then the same input again (seeded change C05-3)
+    yield {"kind": "node", "ops": ["set2", "run", "set3", "submit", "cancel", "clearfailed", "run"]}
+    yield {"kind": "node", "ops": ["set2", "submit", "cancel", "run", "clearfailed", "submit", "complete", "run"]}
+    # witnesses of the findings on the tree as it is
+    yield {"kind": "node", "ops": ["set2", "submit", "drop", "resetrunning", "run"]}
+    yield {"kind": "node", "ops": ["set2", "submit", "resetrunning", "set3", "run", "complete", "run"]}
+    yield {"kind": "node", "ops": ["set4", "submit", "complete", "run"]}
+    yield {"kind": "node", "ops": ["set5", "run", "resetrunning", "run"]}
+    yield {"kind": "node", "ops": ["set2", "run", "set6", "run", "clearfailed", "run", "submit"]}
     yield {"kind": "wf", "ops": [["run"], ["rewire", 2, "a", 0], ["run"]], "macro": False}
     yield {"kind": "wf", "ops": [["run"], ["setinner", 1, "a", "y"], ["run"]], "macro": False}
+    sh = _tree_shapes()
+    # a grandchild's free input changes (seeded change C05-2), at depth 2, 3 and 4
+    yield {"kind": "tree", "shape": sh[0], "ops": [["run"], ["setat", ["m0"], "n1", "c", 4], ["run"]]}
+    yield {"kind": "tree", "shape": sh[1], "ops": [["run"], ["setat", ["m0", "m0"], "n1", "c", 4], ["run"]]}
+    yield {"kind": "tree", "shape": sh[2], "ops": [["run"], ["setat", ["m0", "m1", "m0"], "n2", "c", 4], ["run"], ["run"]]}
+    # the last child of a nested macro replaced by a node of another class (finding KF-C05-5)
+    yield {"kind": "tree", "shape": sh[4], "ops": [["run"], ["replaceat", ["m0"], "n0", 16], ["run"]]}
+    yield {"kind": "tree", "shape": sh[1], "ops": [["run"], ["replaceat", ["m0", "m0"], "n2", 16], ["run"]]}
 
 
 # ----------------------------------------------------------------------------- node level
 
 
-def _mk_node(use_cache, sched):
+class QExec:
+    """a controllable executor with its own queue (wraps execsim.CtlExecutor): jobs run when the history says so,
+    can be cancelled before they start (`shutdown(cancel_futures=True)`) or lost"""
+
+    def __new__(cls):
+        from .execsim import CtlExecutor, Scheduler
+
+        class _Q(CtlExecutor):
+            def shutdown(self, wait=True, *, cancel_futures=False):
+                if cancel_futures:
+                    jobs, self.sched.jobs[:] = list(self.sched.jobs), []
+                    for job in jobs:
+                        job[1].cancel()  # the done-callback runs here, with CancelledError
+
+            @property
+            def jobs(self):
+                return self.sched.jobs
+
+        return _Q(Scheduler([]), "ctl")
+
+
+def _mk_node(use_cache):
     from . import nodes_c05 as nc
 
     n = nc.G(label="g")
     n.use_cache = use_cache
+    n.recovery = None
     return n
 
 
@@ -115,11 +246,12 @@ def _vis(n):
     return f"{inp},{out},{str(bool(n.running)).lower()},{str(bool(n.failed)).lower()}"
 
 
-def _apply_node(n, op, sched, exe):
+def _apply_node(n, op, exe, newest=False):
     from pyiron_workflow.channels import NOT_DATA
     from pyiron_workflow.mixin.run import ReadinessError
 
     from . import nodes_c05 as nc
+    from .execsim import _run_job
 
     try:
         if op.startswith("set"):
@@ -133,21 +265,33 @@ def _apply_node(n, op, sched, exe):
             n.executor = exe
             return _res(n.run())
         if op == "complete":
-            for k, job in enumerate(sched.jobs):
-                if job[0] is n:
-                    from .execsim import _run_job
-
-                    sched.jobs.pop(k)
-                    _run_job(job)
-                    break
+            if exe.jobs:
+                _run_job(exe.jobs.pop(-1 if newest else 0))
             return "unit"
         if op == "clearfailed":
             n.failed = False
+            return "unit"
+        if op == "cancel":
+            n.executor = exe
+            n.executor_shutdown(wait=False, cancel_futures=True)
+            return "unit"
+        if op == "drop":
+            if exe.jobs:
+                exe.jobs.pop(0)
+            return "unit"
+        if op == "resetrunning":
+            n.running = False
             return "unit"
     except ReadinessError:
         return "readiness"
     except nc.Boom:
         return "raised"
+    except KeyboardInterrupt:
+        return "escaped" if op == "complete" else "interrupted"
+    except nc.Fatal:
+        return "escaped" if op == "complete" else "fatal"
+    except TypeError:
+        return "procraised"
     except RuntimeError as e:
         return "locked" if "locked" in str(e) else f"exc:{type(e).__name__}"
     except Exception as e:  # noqa: BLE001
@@ -156,43 +300,41 @@ def _apply_node(n, op, sched, exe):
 
 
 def _run_node_case(case):
-    import io
-    import logging
-
     from . import nodes_c05 as nc
-    from .execsim import CtlExecutor, Scheduler
 
-    nc.reset(BAD)
-    sched = Scheduler([])
-    exe = CtlExecutor(sched, "ctl")
-    a = _mk_node(True, sched)
-    b = _mk_node(False, sched)
+    nc.reset(BEH)
+    ea, eb = QExec(), QExec()
+    a = _mk_node(True)
+    b = _mk_node(False)
     lines, rows = [], []
     hits = 0
     special = 0
     for op in case["ops"]:
         ca = len(nc.CALLS["c"])
         nc.WHO = "c"
-        ra = _apply_node(a, op, sched, exe)
+        ra = _apply_node(a, op, ea)
         nc.WHO = "u"
-        rb = _apply_node(b, op, sched, exe)
+        rb = _apply_node(b, op, eb)
         settled = False
         if op == "submit" and ra.startswith("ret:") and rb == "future":
-            # a submit answered from the cache: settle the uncached twin's job, then compare
-            _apply_node(b, "complete", sched, exe)
+            # a submit answered from the cache: settle the uncached twin's job (the newest), then compare
+            _apply_node(b, "complete", eb, newest=True)
             settled = True
         if op in ("run", "submit") and ra.startswith("ret:") and len(nc.CALLS["c"]) == ca:
             hits += 1
-        if ra in ("raised", "readiness") or rb in ("raised", "readiness") or a.running:
+        if ra not in ("unit", "future", "locked") and not ra.startswith("ret:") or a.running or op in ("cancel", "drop", "resetrunning"):
             special += 1
-        rows.append({"op": op, "c": ra, "u": rb, "vc": _vis(a), "vu": _vis(b), "settled": settled})
-        lines.append(f"c={ra} u={rb} vc={_vis(a)} vu={_vis(b)}")
+        line = f"c={ra} u={rb} vc={_vis(a)} vu={_vis(b)} q={len(ea.jobs)}/{len(eb.jobs)}"
+        rows.append({"op": op, "c": ra, "u": rb, "vc": _vis(a), "vu": _vis(b), "settled": settled, "line": line,
+                     "running_before_reset": None})
+        lines.append(line)
     return {"obs": lines, "rows": rows, "hits": hits, "special": special,
-            "stats": {"node_cases": 1, "hits": hits, "failed_refused_inflight": special,
-                      "settled_submit_hits": sum(r["settled"] for r in rows)}}
+            "stats": {"node_cases": 1, "hits": hits, "failed_refused_inflight_cancelled_lost": special,
+                      "settled_submit_hits": sum(r["settled"] for r in rows),
+                      **{"op_" + o: sum(1 for r in rows if r["op"] == o) for o in ("cancel", "drop", "resetrunning")}}}
 
 
-# ----------------------------------------------------------------------------- composite level
+# ----------------------------------------------------------------------------- flat composite level (first round)
 
 
 def _build_wf(use_cache, macro):
@@ -232,7 +374,7 @@ def _apply_wf(host, op, use_cache):
     kids = lambda: {c.label: c for c in host}  # noqa: E731
     try:
         if op[0] == "run":
-            r = host.run() if hasattr(host, "automate_execution") else host.run()
+            r = host.run()
             return "ret:" + str({k: term_str(v) for k, v in dict(r).items()}), host
         if op[0] == "setopen":
             key = f"n0__{op[1]}"
@@ -305,27 +447,442 @@ def _run_wf_case(case):
     return {"obs": [], "rows": rows, "hits": 0, "special": 0, "stats": {"wf_cases": 1}}
 
 
+# ----------------------------------------------------------------------------- nested composites
+
+
+def _lid(label):
+    """label -> number of the model: n<k> -> k, m<k> -> 100 + k, the fan-out node of macro input `x` -> 200 + ord"""
+    if len(label) == 1:
+        return 200 + ord(label) - ord("a")
+    return (100 if label[0] == "m" else 0) + int(label[1:])
+
+
+def _cls_id(name):
+    """F<k> -> k; the standard UserInput node (identity, made by a macro for an input that fans out) -> 99"""
+    return 99 if name == "UserInput" else int(name[1:])
+
+
+def _val(code):
+    return "d" if code == 0 else f"a{code}"
+
+
+def _code(v):
+    if v == "d":
+        return 0
+    if isinstance(v, str) and v[:1] == "a" and v[1:].isdigit():
+        return int(v[1:])
+    return None
+
+
+def _term(v):
+    from pyiron_workflow.channels import NOT_DATA
+
+    if v is NOT_DATA:
+        return "ND"
+    if isinstance(v, tuple) and v and isinstance(v[0], str) and v[0].startswith("f"):
+        return v[0] + "(" + ",".join(_term(a) for a in v[1:]) + ")"
+    if isinstance(v, str):
+        return v
+    return repr(v).replace(" ", "")
+
+
+def _is_comp(n):
+    from pyiron_workflow.nodes.composite import Composite
+
+    return isinstance(n, Composite)
+
+
+def _cache_off(n):
+    n.use_cache = False
+    if _is_comp(n):
+        for c in n:
+            _cache_off(c)
+
+
+def _build_tree(shape, use_cache):
+    from pyiron_workflow import Workflow
+
+    from . import nodes
+    from . import nodes_c05 as nc
+
+    wf = Workflow("w", autoload=None)
+    wf.recovery = None
+    for label, kind, ins in shape:
+        kw = {ch: (wf.children[s] if isinstance(s, str) else _val(s)) for ch, s in ins.items()}
+        n = nc.MACROS[kind](label=label, **kw) if kind in nc.MACROS else nodes.term_node(int(kind[1:]), label=label, **kw)
+        wf.add_child(n)
+    if not use_cache:
+        _cache_off(wf)
+    return wf
+
+
+def _link_index(parent, chan):
+    """index of the parent input whose value is linked to this child channel (macros), else None"""
+    for i, pch in enumerate(parent.inputs):
+        if pch.value_receiver is chan:
+            return i
+    return None
+
+
+def _src(parent, chan):
+    if chan.connected:
+        return f"c{_lid(chan.connections[0].owner.label)}"
+    i = _link_index(parent, chan) if parent is not None else None
+    if i is not None:
+        return f"l{i}"
+    c = _code(chan.value)
+    return f"v{c}" if c is not None else "v?"
+
+
+def _ret_of(comp):
+    for c in comp:
+        for out in c.outputs:
+            if out.value_receiver is not None and any(out.value_receiver is o for o in comp.outputs):
+                return _lid(c.label)
+    return 0
+
+
+def _path_str(path):
+    return ".".join(str(_lid(p)) for p in path) if path else "-"
+
+
+def _describe(comp, path, is_root, lines):
+    """the model's build lines for the live graph (read once, right after it is built)"""
+    for c in comp:
+        srcs = " ".join(_src(None if is_root else comp, ch) for ch in c.inputs)
+        if _is_comp(c):
+            lines.append(f"tcomp {_path_str(path)} {_lid(c.label)} {_ret_of(c)} {srcs}".rstrip())
+            _describe(c, path + [c.label], False, lines)
+        else:
+            lines.append(f"tleaf {_path_str(path)} {_lid(c.label)} {_cls_id(type(c).__name__)} {srcs}".rstrip())
+
+
+def _render_key(comp, key, is_root):
+    """the live `_internal_cache_key()` tuple in the syntax of the model's key (what the model does not record —
+    signal connections, starting nodes, composite class names — is left out)"""
+    try:
+        labels, dconns, _sig, _start, per_child = key
+        conn = {(c[0][0], c[0][1]): c[1][0] for c in dconns}
+        out = []
+        for entry in per_child:
+            label, free, nested = entry[0], entry[-2], entry[-1]
+            cls = entry[1] if len(entry) == 4 else None
+            child = comp.children[label]
+            free = dict(free)
+            ins = []
+            for ch in child.inputs:
+                if (label, ch.label) in conn:
+                    ins.append(f"c{_lid(conn[(label, ch.label)])}")
+                elif ch.label in free:
+                    i = None if is_root else _link_index(comp, ch)
+                    c = _code(free[ch.label])
+                    ins.append(f"l{i}" if i is not None else (f"v{c}" if c is not None else "v?"))
+                else:
+                    ins.append("?")
+            if nested is not None:
+                out.append(f"{_lid(label)}:-:C{_ret_of(child)}:({','.join(ins)})[{_render_key(child, nested, False)}]")
+            else:
+                k = "-" if cls is None or _is_comp(child) else _cls_id(cls.rsplit(".", 1)[-1])
+                out.append(f"{_lid(label)}:{k}:L:({','.join(ins)})")
+        if tuple(labels) != tuple(e[0] for e in per_child):
+            return "labels-differ " + "|".join(out)
+        return "|".join(out)
+    except Exception as e:  # noqa: BLE001
+        return f"unrenderable:{type(e).__name__}"
+
+
+def _comps(host, path=()):
+    """every composite of the graph with its path, depth first"""
+    yield list(path), host
+    for c in host:
+        if _is_comp(c):
+            yield from _comps(c, path + (c.label,))
+
+
+def _at(host, path):
+    for p in path:
+        host = host.children[p]
+    return host
+
+
+def _rank(comp, label):
+    """position in the macro's fixed execution order = creation order of its class; children added later: last"""
+    order = getattr(comp, "_c05_order", None)
+    if order is None:
+        return 0
+    return order.index(label) if label in order else len(order)
+
+
+def _upstream(node, seen=None):
+    seen = set() if seen is None else seen
+    for ch in node.inputs:
+        for o in ch.connections:
+            if o.owner.label not in seen:
+                seen.add(o.owner.label)
+                _upstream(o.owner, seen)
+    return seen
+
+
+def _resolve(host, op):
+    """turn a generated edit (selector based) into a concrete one on the current structure; None = nothing to do"""
+    kind = op[0]
+    if kind in ("run", "pickle"):
+        return list(op)
+    if kind == "setat":  # concrete already: path, child, channel, code
+        return ["setin", op[1], op[2], op[3], op[4]]
+    if kind == "replaceat":
+        return ["replace", op[1], op[2], op[3]]
+    sel = op[1]
+    comps = list(_comps(host))
+    cands = []
+    for path, comp in comps:
+        is_root = not path
+        for c in comp:
+            if kind == "setin":
+                for ch in c.inputs:
+                    if not ch.connected and (is_root or _link_index(comp, ch) is None) and _code(ch.value) is not None:
+                        cands.append(["setin", path, c.label, ch.label, op[2]])
+            elif kind == "rewire":
+                for ch in c.inputs:
+                    if not is_root and _link_index(comp, ch) is not None:
+                        continue
+                    for s in comp:
+                        if s is c or c.label in _upstream(s) or not hasattr(s.outputs, "o"):
+                            continue
+                        if not is_root and _rank(comp, s.label) >= _rank(comp, c.label):
+                            continue  # a macro keeps the execution order it was created with
+                        cands.append(["rewire", path, c.label, ch.label, s.label])
+            elif kind == "replace":
+                if not _is_comp(c) and hasattr(c.outputs, "o"):
+                    cands.append(["replace", path, c.label, op[2]])
+            elif kind == "remove":
+                consumers = any(o.connections for o in c.outputs)
+                exposed = (not is_root) and _ret_of(comp) == _lid(c.label)
+                if not consumers and not exposed and len(comp.children) > 1:
+                    cands.append(["remove", path, c.label])
+        if kind == "add":
+            label = next(f"n{k}" for k in range(20, 60) if f"n{k}" not in comp.children)
+            srcs = [s.label for s in comp if hasattr(s.outputs, "o")]
+            cands.append(["add", path, label, op[2], srcs[sel % len(srcs)] if srcs and sel % 3 else None])
+    if not cands:
+        return None
+    if kind != "add":
+        # spread the selector over the composites first, then over the candidates inside the chosen one
+        paths = [p for p, _ in comps if any(c[1] == p for c in cands)]
+        p = paths[sel % len(paths)]
+        inside = [c for c in cands if c[1] == p]
+        return inside[(sel // len(paths)) % len(inside)]
+    return cands[sel % len(cands)]
+
+
+def _apply_tree(host, op, use_cache):
+    import pickle
+
+    from . import nodes
+
+    try:
+        if op[0] == "setin":
+            _at(host, op[1]).children[op[2]].inputs[op[3]].value = _val(op[4])
+            return "unit", host
+        if op[0] == "rewire":
+            comp = _at(host, op[1])
+            ch = comp.children[op[2]].inputs[op[3]]
+            ch.disconnect_all()
+            ch.connect(comp.children[op[4]].outputs.o)
+            return "unit", host
+        if op[0] == "replace":
+            comp = _at(host, op[1])
+            n = nodes.term_node(op[3], label="r")
+            if not use_cache:
+                n.use_cache = False
+            comp.replace_child(comp.children[op[2]], n)
+            return "unit", host
+        if op[0] == "remove":
+            comp = _at(host, op[1])
+            comp.remove_child(comp.children[op[2]])
+            return "unit", host
+        if op[0] == "add":
+            comp = _at(host, op[1])
+            n = nodes.term_node(op[3], label=op[2])
+            if not use_cache:
+                n.use_cache = False
+            comp.add_child(n)
+            if op[4] is not None:
+                n.inputs.a.connect(comp.children[op[4]].outputs.o)
+            return "unit", host
+        if op[0] == "pickle":
+            h2 = pickle.loads(pickle.dumps(host))
+            for (_, c1), (_, c2) in zip(_comps(host), _comps(h2)):
+                if hasattr(c1, "_c05_order"):
+                    c2._c05_order = c1._c05_order
+            if not use_cache:
+                _cache_off(h2)
+            return "unit", h2
+    except Exception as e:  # noqa: BLE001
+        return f"exc:{type(e).__name__}", host
+    return "bad-op", host
+
+
+def _model_line(op):
+    """the driver line of a concrete edit"""
+    if op[0] == "setin":
+        return None  # needs the channel index: made by the caller
+    if op[0] == "replace":
+        return f"treplace {_path_str(op[1])} {_lid(op[2])} {op[3]}"
+    if op[0] == "remove":
+        return f"tremove {_path_str(op[1])} {_lid(op[2])}"
+    if op[0] == "add":
+        src = f"c{_lid(op[4])}" if op[4] is not None else "v0"
+        return f"tleaf {_path_str(op[1])} {_lid(op[2])} {op[3]} {src} v0 v0"
+    return None
+
+
+def _outs(host):
+    return ";".join(f"{_lid(c.label)}={_term(c.outputs.o.value)}" for c in host if hasattr(c.outputs, "o"))
+
+
+def _run_tree(host):
+    try:
+        r = host.run()
+        return "ret:" + ";".join(f"{k}={_term(v)}" for k, v in dict(r).items())
+    except Exception as e:  # noqa: BLE001
+        return f"exc:{type(e).__name__}"
+
+
+def _run_tree_case(case):
+    from . import nodes
+
+    nodes.reset()
+    a = _build_tree(case["shape"], True)
+    b = _build_tree(case["shape"], False)
+    for h in (a, b):
+        for _, comp in _comps(h):
+            comp._c05_order = [c.label for c in comp]
+    build = []
+    _describe(a, [], True, build)
+    rows, mlines, obs = [], list(build), []
+    hits = 0
+    depth_hist = {}
+    for op in case["ops"]:
+        cop = _resolve(a, op)
+        if cop is None:
+            rows.append({"op": list(op), "resolved": None, "c": "skip", "u": "skip", "vc": _outs(a), "vu": _outs(b)})
+            continue
+        if cop[0] == "run":
+            try:
+                a.set_run_signals_to_dag_execution()  # what Workflow._before_run does first
+                hit = bool(a.cache_hit)
+                key = _render_key(a, a._internal_cache_key(), True)
+            except Exception as e:  # noqa: BLE001
+                hit, key = False, f"exc:{type(e).__name__}"
+            n0 = len(nodes.CALL_LOG)
+            ra = _run_tree(a)
+            calls = len(nodes.CALL_LOG) - n0
+            rb = _run_tree(b)
+            hits += int(hit)
+            rows.append({"op": ["run"], "resolved": ["run"], "c": ra, "u": rb, "vc": _outs(a), "vu": _outs(b),
+                         "hit": hit, "calls": calls, "key": key})
+            # A miss of the code is passed on (the code's key also holds the values last PUSHED through value links,
+            # which lag one run behind — outside the model); a hit of the code must be a hit of the model's key.
+            mlines.append("trun" if hit else "trun miss")
+            if ra.startswith("ret:") and rb.startswith("ret:") and not hit and _outs(a) != _outs(b):
+                # the root ran, yet its outputs differ from the twin's: a NESTED composite answered from its own
+                # cache (the model keeps no nested caches) — the oracle reports it, the comparison stops here
+                obs.append("exc")
+            elif ra.startswith("ret:") and rb.startswith("ret:"):
+                obs.append(f"hit={str(hit).lower()} c={_outs(a)} u={_outs(b)}")
+                obs.append(f"key {key}")
+            else:
+                obs.append("exc")
+            continue
+        idx = None
+        if cop[0] in ("setin", "rewire"):
+            child = _at(a, cop[1]).children.get(cop[2])
+            if child is not None:
+                idx = [ch.label for ch in child.inputs].index(cop[3])
+        ra, a = _apply_tree(a, cop, True)
+        rb, b = _apply_tree(b, cop, False)
+        depth_hist[f"edit_{cop[0]}_depth{len(cop[1]) if len(cop) > 1 else 0}"] = \
+            depth_hist.get(f"edit_{cop[0]}_depth{len(cop[1]) if len(cop) > 1 else 0}", 0) + 1
+        rows.append({"op": list(op), "resolved": cop, "c": ra, "u": rb, "vc": _outs(a), "vu": _outs(b)})
+        if ra != "unit" or rb != "unit":
+            obs.append("exc")  # the comparison with the model stops here
+            continue
+        if cop[0] == "setin":
+            mlines.append(f"tsetin {_path_str(cop[1])} {_lid(cop[2])} {idx} v{cop[4]}")
+        elif cop[0] == "rewire":
+            mlines.append(f"tsetin {_path_str(cop[1])} {_lid(cop[2])} {idx} c{_lid(cop[4])}")
+        elif cop[0] != "pickle":
+            mlines.append(_model_line(cop))
+    return {"obs": obs, "rows": rows, "mlines": mlines, "hits": hits, "special": 0,
+            "stats": {"tree_cases": 1, "tree_hits": hits, "tree_runs": sum(1 for r in rows if r["resolved"] == ["run"]),
+                      **depth_hist}}
+
+
 def run_impl(case):
-    return _run_node_case(case) if case["kind"] == "node" else _run_wf_case(case)
+    if case["kind"] == "node":
+        return _run_node_case(case)
+    if case["kind"] == "tree":
+        return _run_tree_case(case)
+    return _run_wf_case(case)
 
 
 def nontrivial(case, impl):
-    return case["kind"] == "wf" or impl["hits"] > 0 or impl["special"] > 0
+    return case["kind"] != "node" or impl["hits"] > 0 or impl["special"] > 0
 
 
 # ----------------------------------------------------------------------------- model
 
 
 def model_input(case, impl):
+    if case["kind"] == "tree":
+        return list(impl.get("mlines", []))
     if case["kind"] != "node":
         return []
-    lines = ["bad " + " ".join(map(str, BAD))]
+    lines = ["beh " + " ".join(f"{k}:{v}" for k, v in sorted(BEH.items()))]
     for op in case["ops"]:
         lines.append(f"set {op[3:]}" if op.startswith("set") else op)
     return lines
 
 
+def _diff_variants(mine, variants, ops=None):
+    best = None
+    for tag, theirs in variants.items():
+        theirs = theirs[: len(mine)]
+        if theirs == mine:
+            return None
+        for k, (x, y) in enumerate(zip(mine, theirs)):
+            if x != y:
+                if best is None or k > best["index"]:
+                    best = {"index": k, "impl": x, "model": y, "variant": tag}
+                    if ops is not None and k < len(ops):
+                        best["op"] = ops[k]
+                break
+        else:
+            if best is None:
+                best = {"index": len(theirs), "impl": f"<{len(mine)} lines>", "model": f"<{len(theirs)} lines>", "variant": tag}
+    return best
+
+
 def diff(case, impl, model):
+    if case["kind"] == "tree":
+        mine = []
+        for l in impl["obs"]:
+            if l == "exc":
+                break  # a failed run: the model has no failures at this level; compared up to here
+            mine.append(l)
+        variants = {}
+        for tag in ("Tcur", "Tprop"):
+            out = []
+            for l in model:
+                if l.startswith(tag + " "):
+                    out.append(l[len(tag) + 1:])
+                elif l.startswith(tag + "key "):
+                    out.append("key " + l[len(tag) + 4:])
+            variants[tag] = out
+        if any(l == "bad-op" for l in model):
+            return {"index": 0, "impl": "<ops>", "model": "bad-op", "variant": "-"}
+        return _diff_variants(mine, variants)
     if case["kind"] != "node":
         return None
     mine = []
@@ -334,18 +891,10 @@ def diff(case, impl, model):
         # the driver knows no settle, so such cases are compared up to that point only
         if r["settled"]:
             break
-        mine.append(f"c={r['c']} u={r['u']} vc={r['vc']} vu={r['vu']}")
-    best = None
-    for tag in ("P", "R"):
-        theirs = [l[2:] for l in model if l.startswith(tag + " ")][: len(mine)]
-        if theirs == mine:
-            return None
-        for k, (x, y) in enumerate(zip(mine, theirs)):
-            if x != y:
-                if best is None or k > best["index"]:
-                    best = {"index": k, "impl": x, "model": y, "variant": tag, "op": case["ops"][k]}
-                break
-    return best
+        mine.append(r["line"])
+    # R = the tree as it is, S = with the proposed repair (commit the cache when the result is processed)
+    variants = {tag: [l[2:] for l in model if l.startswith(tag + " ")] for tag in ("R", "S")}
+    return _diff_variants(mine, variants, case["ops"])
 
 
 # ----------------------------------------------------------------------------- oracle
@@ -353,7 +902,6 @@ def diff(case, impl, model):
 
 def oracle(case, impl):
     fails = []
-    prev_special = None
     for k, r in enumerate(impl["rows"]):
         c, u = r["c"], r["u"]
         same_ret = c == u or (r.get("settled") and c.startswith("ret:"))
@@ -363,7 +911,7 @@ def oracle(case, impl):
         if not same_ret or r["vc"] != r["vu"]:
             trig = _trigger(case, impl, k)
             fails.append({"clause": "cached-differs-from-uncached",
-                          "detail": f"op #{k} {r['op']}: cached {c} / {r['vc']}  vs  uncached {u} / {r['vu']}",
+                          "detail": f"op #{k} {r.get('resolved') or r['op']}: cached {c} / {r['vc']}  vs  uncached {u} / {r['vu']}",
                           "signature": {"clause": "transparent", "kind": case["kind"], "trigger": trig}})
             break
     return fails
@@ -373,15 +921,31 @@ def _trigger(case, impl, k):
     """what kind of event preceded the stale answer (structural classification for findings)"""
     rows = impl["rows"]
     if case["kind"] == "node":
-        # look back for the most recent non-trivial outcome on the uncached twin
-        for j in range(k, -1, -1):
-            u = rows[j]["u"]
-            if u == "raised":
+        # look back for the most recent non-trivial event
+        for j in range(k - 1, -1, -1):
+            u, op = rows[j]["u"], rows[j]["op"]
+            was_running = j > 0 and rows[j - 1]["vu"].split(",")[2] == "true"
+            if op == "resetrunning" and was_running:
+                return "after-manual-reset-of-running"
+            if op == "complete" and u == "escaped":
+                return "after-base-exception-in-job"
+            if op == "complete" and j > 0 and rows[j - 1]["line"].split("q=")[1] != rows[j]["line"].split("q=")[1] \
+                    and not was_running:
+                return "after-late-completion"
+            if op == "cancel" and was_running:
+                return "after-cancelled-job"
+            if u in ("raised", "interrupted", "procraised", "fatal"):
                 return "after-failed-run"
-            if u == "readiness" and j < k:
+            if u == "readiness":
                 return "after-refused-run"
             if u == "future":
                 return "while-in-flight"
+        return "other"
+    if case["kind"] == "tree":
+        for j in range(k - 1, -1, -1):
+            res = rows[j].get("resolved")
+            if res and res[0] not in ("run",) and rows[j]["c"] == "unit":
+                return f"after-{'nested-' if len(res) > 1 and res[1] else ''}{res[0]}"
         return "other"
     for j in range(k - 1, -1, -1):
         if rows[j]["op"][0] != "run" and rows[j]["c"] == "unit":
